@@ -27,6 +27,9 @@ use tokio::{join, sync::broadcast};
 use tracing::{debug, error, info};
 
 pub use self::config::{Config, SyncStrategy};
+/// Verification hook: the merge policy can otherwise only be set through a deserialized configuration.
+#[cfg(feature = "verif")]
+pub use self::config::MergePolicy as VerifMergePolicy;
 use self::{
     log::{LogDir, LogIterator, LogStatistics, LogWriter},
     utils::datafile_name,
